@@ -3,5 +3,6 @@ CONSTANTS
   ReadData = FALSE
   ReadRootPacks = TRUE
   VerifyFileHash = TRUE
+  ReadAllCopies = TRUE
 INVARIANTS Sound Undamaged
 CHECK_DEADLOCK FALSE
